@@ -42,7 +42,7 @@ theorem commitD_result {t : Tables} (hw : WF t) (hk : KOK t) {tx : DTx} (hi : DT
       have hS : c.res.allS = [] := by
         obtain ⟨a, b, c', d, e, _⟩ := r1.sl
         simp [TxResult.allS, a, b, c', d, e]
-      obtain ⟨s1, s2, s3, s4, fr⟩ := commitStates_res h1 hS r1.sl.2.2.2.2.2
+      obtain ⟨s1, s2, s3, s4, fr, _, _⟩ := commitStates_res h1 hS r1.sl.2.2.2.2.2
       have S := h1.seen
       have fD : ∀ k, findD (commitStates c).1.t k = findD c.t k := fun k => by simp [findD, R.descrs]
       refine ⟨?_, ?_, ?_, s1, s3, ?_, ?_, ?_⟩
